@@ -245,7 +245,7 @@ def readcodemaple(dra, indicespath, valuespath):
           f'    v({dims} i(1,k) + 1 .. i(2,k));\n' \
           f'end proc;\n' \
           f'# example to read {position} (k={k}) subarray:\n'\
-          f'sa = getsubarray({k});\n'
+          f'sa := getsubarray({k});\n'
     return f'{rci}{rcv}{rff}'
 
 # empty subarrays don't work with this method
